@@ -30,10 +30,23 @@ fn reason_class(e: &str) -> String {
 impl C02 {
     fn check(&self, cx: &mut Cx, lib: &GdsLibrary, want: &NLib, desc: &str) {
         cx.eval();
+        // every 7th case goes through the file API instead (GdsLibrary::save), onto a path that already holds a longer older file:
+        // the bytes on disk are then what is judged
+        let via_file = cx.n % 7 == 3;
+        let path = cx.tmp("c02.gds");
         let written = guard(|| {
-            let mut buf = Vec::new();
-            lib.write(&mut buf).map(|_| buf)
+            if via_file {
+                let _ = std::fs::write(&path, vec![0x5Au8; 200_000]);
+                lib.save(&path).map(|_| std::fs::read(&path).unwrap_or_default())
+            } else {
+                let mut buf = Vec::new();
+                lib.write(&mut buf).map(|_| buf)
+            }
         });
+        if via_file {
+            let _ = std::fs::remove_file(&path);
+            cx.count("via_save_over_existing_file");
+        }
         let buf = match written {
             Err(c) => {
                 cx.violation(&format!("write-panic|{}|{}", c.site(), c.norm_msg()), json!({"case": desc, "panic": c.msg}));
